@@ -116,7 +116,7 @@ func runC05(t *testing.T, tape *sim.Tape, tier string) *Outcome {
 		c := w.addConn()
 		c.chunkMode = tape.Draw(4, "chunkmode")
 		lockstep[j] = tape.Draw(2, "lockstep") == 0
-		g := &wl.Gen{T: tape, Binary: binary, CaseVary: true, Prefix: fmt.Sprintf("c%d", j)}
+		g := &wl.Gen{T: tape, Binary: binary, CaseVary: true, AltSpellings: true, Prefix: fmt.Sprintf("c%d", j)}
 		n := 1 + tape.Draw(maxN, "nreq")
 		var reqs []*wl.Req
 		for i := 0; i < n; i++ {
@@ -316,6 +316,14 @@ func runC05(t *testing.T, tape *sim.Tape, tier string) *Outcome {
 					o.violate("c05:custom-reply", "%s: executor returned %q, client got %s", where, cc.tok, reply)
 				}
 				continue
+			}
+			if r.AltInt && len(recs) == 0 && reply.K == resp.Error {
+				// an integer spelled with leading zeros or a plus sign may be refused as "not an integer"
+				o.stat("alternative_integer_spellings_refused", 1)
+				continue
+			}
+			if r.AltInt {
+				o.stat("alternative_integer_spellings_taken_as_decimal", 1)
 			}
 			want := r.Expect
 			if r.ExpectAt != nil {
